@@ -218,9 +218,32 @@ func (w *World) FillV1Signatures(txn *types.Transaction) {
 	}
 }
 
+// UCFor returns the v1 unlock conditions for an address class.
+func (k *Keys) UCFor(class int) types.UnlockConditions {
+	if class == AddrNoSig {
+		return types.UnlockConditions{}
+	}
+	return k.StdUC(KeyOf(class))
+}
+
+// UCForHash returns the known unlock conditions hashing to a (contract) unlock hash.
+func (k *Keys) UCForHash(a types.Address) types.UnlockConditions {
+	if a == (types.UnlockConditions{}).UnlockHash() {
+		return types.UnlockConditions{}
+	}
+	for i := range k.Pub {
+		if k.StdUC(i).UnlockHash() == a {
+			return k.StdUC(i)
+		}
+	}
+	return k.ContractUC()
+}
+
 // PolicyFor returns the spend policy (v2) for an address class.
 func (k *Keys) PolicyFor(class int) types.SpendPolicy {
 	switch class {
+	case AddrNoSig:
+		return types.SpendPolicy{Type: types.PolicyTypeUnlockConditions(types.UnlockConditions{})}
 	case AddrV1, AddrV1b, AddrFnd:
 		return types.SpendPolicy{Type: types.PolicyTypeUnlockConditions(k.StdUC(KeyOf(class)))}
 	case AddrV2, AddrV2b, AddrFndV2:
